@@ -172,16 +172,17 @@ def gen_groups(ctx):
             g += ["X %x" % v for v in inits]
             g += crc_ops(rng, 8, 16 if quick else 40, 8 if quick else 20, 0, 3 if quick else 6)
             groups.append(g)
-    # --- wider: standard + boundary + random polynomials
-    rng = random.Random(ctx.subseed("crcwide"))
+    # --- wider: standard + boundary + random polynomials (thorough: 3 rounds with derived seeds)
     n_rand = 400 if quick else 3000
-    for w in (16, 32, 64):
-        polys = list(STD_POLYS[w]) + boundary_words(w) + [1 << i for i in range(w)] + \
-            [rng.getrandbits(w) for _ in range(n_rand)]
-        for poly in polys:
-            for d in "ml":
-                groups.append(["T %d %s %x" % (w, d, poly)] +
-                              crc_ops(rng, w, 8 if quick else 12, 4 if quick else 8, 0, 2 if quick else 3, n_x=2 if quick else 4))
+    for rnd in range(1 if quick else 3):
+        rng = random.Random(ctx.subseed("crcwide" if rnd == 0 else "crcwide/%d" % rnd))
+        for w in (16, 32, 64):
+            fixed = list(STD_POLYS[w]) + boundary_words(w) + [1 << i for i in range(w)] if rnd == 0 else []
+            polys = fixed + [rng.getrandbits(w) for _ in range(n_rand)]
+            for poly in polys:
+                for d in "ml":
+                    groups.append(["T %d %s %x" % (w, d, poly)] +
+                                  crc_ops(rng, w, 8 if quick else 12, 4 if quick else 8, 0, 2 if quick else 3, n_x=2 if quick else 4))
     # --- thorough: every 16-bit polynomial, both orders, full table (+ all byte values from one value)
     if not quick:
         rng = random.Random(ctx.subseed("crc16all"))
@@ -550,8 +551,26 @@ def build(ctx):
     return cbin, mbin
 
 
+def thorough_proof_recheck(ctx):
+    """Thorough tier: rebuild every C17 .vo from clean and re-check the compiled development with coqchk."""
+    deps = [d for d in ctx.coq_deps("Properties_%s.v" % PID)]
+    ok, outs, failed = ctx.coq_build(["Properties_%s.v" % PID], timeout=1500, force=tuple(deps))
+    if not ok:
+        ctx.tie_broken("clean rebuild of the C17 development failed: " + ",".join(failed))
+        return
+    rc, out = vlib.sh(["coqchk", "-silent", "-o", "-Q", ".", "LibaV", "LibaV.Properties_%s" % PID], cwd=vlib.COQ, timeout=1200)
+    axioms_none = "* Axioms: <none>" in out
+    if rc != 0 or not axioms_none:
+        ctx.tie_broken("coqchk on Properties_C17 failed or reports axioms: " + " ".join(out.split())[-400:])
+    else:
+        ctx.cov["trusted_base"].append("coqchk -o LibaV.Properties_C17: accepted, Axioms: <none>")
+        ctx.log("coqchk accepted Properties_C17 (no axioms)")
+
+
 def run(ctx):
     proved = ctx.prove()
+    if proved and not ctx.quick:
+        thorough_proof_recheck(ctx)
     cbin, mbin = build(ctx)
     groups, n_corpus = gen_groups(ctx)
     shards_idx = make_shards(groups, vlib.NPROC * 2)
@@ -644,7 +663,7 @@ def replay(ctx, path):
     fails = orc.check_group(lines)
     outs, err = orc.c_lines(lines)
     print("case:", *lines, sep="\n  ")
-    print("C output:", *(outs or [err]), sep="\n  ")
+    print("C output:", *[(x if len(x) < 200 else x[:200] + " ...") for x in (outs or [err])], sep="\n  ")
     if fails:
         for f in fails:
             print("STILL FAILING: %s: observed %s expected %s" % (f["what"], f["observed"], f["expected"]))
